@@ -8,7 +8,7 @@ from common import (OUT, REPO, Report, ToolError, build_harness, digest, log, re
                     seed, split_runs, tlc_printed, tpv, validate_trace)
 
 NEED_ACTIONS = ["DoReceive", "DoParse", "DoAuthenticate", "DoAuthorise", "DoDebugGate", "DoDispatch"]
-CRED_ORDER = ["none", "wrong", "xe", "re", "pv", "po", "pe", "pa", "admin"]
+CRED_ORDER = ["none", "wrong", "w-empty", "w-prefix", "w-ext", "w-case", "w-pprefix", "w-pext", "xe", "re", "pv", "po", "pe", "pa", "admin"]
 
 
 def generate(tier, work):
